@@ -11,7 +11,8 @@ if [ "$1" = "-R" ]; then rev="-R"; shift; fi
 if [ "$1" = "none" ]; then patch=""; tag=clean-$$; else patch=$(readlink -f "$1"); tag=$(basename "$(dirname "$patch")")-$$; fi; shift
 wt=/tmp/mt-repo-$tag; vf=/tmp/mt-verif-$tag
 git -C /repo worktree add --detach "$wt" HEAD >/dev/null 2>&1 || { echo "worktree failed"; exit 2; }
-if [ -n "$patch" ] && ! git -C "$wt" apply $rev "$patch"; then echo "patch does not apply"; git -C /repo worktree remove --force "$wt"; exit 2; fi
+# seeded patches were written against the /repo HEAD of their time; later repair commits may have moved the context: fall back to a 3-way apply
+if [ -n "$patch" ] && ! git -C "$wt" apply $rev "$patch" 2>/dev/null && ! git -C "$wt" apply -3 $rev "$patch" >/dev/null 2>&1; then echo "patch does not apply"; git -C /repo worktree remove --force "$wt"; exit 2; fi
 rsync -a --exclude .git --exclude replays --exclude .work/cases /verif/ "$vf"/
 mkdir -p "$vf/replays" "$vf/.work/cases"
 for p in "$@"; do
